@@ -224,4 +224,384 @@ C04(ctx) ==
 C19(ctx) ==
   RtDiff("C19.exact", ctx.M, ctx.orig, NF(ctx.M, MaskCustomGo(ctx.M, 1, ctx.orig)), NF(ctx.M, MaskCustomGo(ctx.M, 1, ctx.back)))
 
+
+---------------------------------------------------------------------------
+\* The value a Terraform value denotes (contract-side reading of "is copied"): known scalars carry their
+\* value, null / unknown denote zero or nil, containers element-wise.  Independent of prior content and
+\* of payloads under null / unknown by construction.
+RECURSIVE Dec(_, _)
+DecPrim(F, a) == IF Known(a) THEN (IF F.nullable THEN Ptr(Sc(a.v)) ELSE Sc(a.v))
+                 ELSE (IF F.nullable THEN Nil ELSE Sc(ZeroScalar(F.cls)))
+DecElem(F, e) ==
+  IF F.kind \in {"primlist", "primmap"} THEN DecPrim(F, e)
+  ELSE IF Known(e) THEN (IF F.nullable THEN Ptr(Dec(SubOf(F), e)) ELSE Dec(SubOf(F), e))
+  ELSE (IF F.nullable THEN Nil ELSE SubOf(F).zero)
+DecField(F, a) ==
+  CASE F.kind = "prim" -> DecPrim(F, a)
+    [] F.kind = "obj" -> IF Known(a) THEN (IF F.nullable THEN Ptr(Dec(SubOf(F), a)) ELSE Dec(SubOf(F), a))
+                         ELSE (IF F.nullable THEN Nil ELSE SubOf(F).zero)
+    [] F.kind \in {"primlist", "objlist"} -> IF Known(a) THEN SeqV([i \in DOMAIN a.elems |-> DecElem(F, a.elems[i])]) ELSE Nil
+    [] F.kind \in {"primmap", "objmap"} -> IF Known(a) THEN MapV([key \in DOMAIN a.mels |-> DecElem(F, a.mels[key])]) ELSE Nil
+    [] OTHER -> Nil
+
+RECURSIVE DecFields(_, _, _, _)
+DecFields(M, i, tv, g) ==
+  IF i > Len(M.fields) THEN g
+  ELSE LET F == M.fields[i]
+           a == AttrOf(tv, F)
+           skip == F.placeholder \/ F.kind = "custom" \/ ~HasFlags(a)
+       IN DecFields(M, i + 1, tv,
+            IF skip THEN g
+            ELSE IF F.oneof # "" THEN (IF Known(a) THEN SetPath(g, <<F.oneof>>, One(F.name, DecField(F, a))) ELSE g)
+            ELSE IF F.embed # "" THEN
+                 (IF Known(a) \/ GetPath(g, Front(F.gopath)).t = "ptr"
+                  THEN SetPath(IF GetPath(g, Front(F.gopath)).t = "nil" THEN SetPath(g, Front(F.gopath), Ptr(F.pzero)) ELSE g,
+                               F.gopath, DecField(F, a))
+                  ELSE g)
+            ELSE SetPath(g, F.gopath, DecField(F, a)))
+Dec(M, tv) == DecFields(M, 1, tv, M.zero)
+
+\* is tv (of field F) well formed: every level has the right Go kind and all attributes present
+RECURSIVE WellFormedObj(_, _)
+WellFormedElem(F, e) ==
+  IF F.kind \in {"primlist", "primmap"} THEN e.k = "prim" /\ e.ty = F.tfty ELSE WellFormedObj(SubOf(F), e)
+WellFormedField(F, a) ==
+  CASE F.kind = "prim" -> a.k = "prim" /\ a.ty = F.tfty
+    [] F.kind = "custom" -> HasFlags(a)
+    [] F.kind = "obj" -> WellFormedObj(SubOf(F), a)
+    [] F.kind \in {"primlist", "objlist"} -> a.k = "list" /\ (Known(a) => \A i \in DOMAIN a.elems : WellFormedElem(F, a.elems[i]))
+    [] OTHER -> a.k = "map" /\ (Known(a) => \A key \in DOMAIN a.mels : WellFormedElem(F, a.mels[key]))
+WellFormedObj(M, tv) ==
+  /\ tv.k = "obj"
+  /\ (Known(tv) => \A i \in DOMAIN M.fields :
+        LET a == AttrOf(tv, M.fields[i]) IN (M.fields[i].placeholder /\ M.empty) \/ (a.k # "missing" /\ WellFormedField(M.fields[i], a)))
+
+\* at most one branch of every oneof group is known, at every level reached through known values
+RECURSIVE OneBranch(_, _)
+OneBranch(M, tv) ==
+  IF ~(tv.k = "obj" /\ Known(tv)) THEN TRUE
+  ELSE /\ \A g \in DOMAIN M.oneofs :
+            Cardinality({i \in DOMAIN M.fields : M.fields[i].oneof = M.oneofs[g] /\ HasFlags(AttrOf(tv, M.fields[i])) /\ ~AttrOf(tv, M.fields[i]).null}) <= 1
+       /\ \A i \in DOMAIN M.fields :
+            LET F == M.fields[i]
+                a == AttrOf(tv, F)
+            IN CASE F.kind = "obj" /\ a.k = "obj" -> OneBranch(SubOf(F), a)
+                 [] F.kind = "objlist" /\ a.k = "list" /\ Known(a) -> \A j \in DOMAIN a.elems : OneBranch(SubOf(F), a.elems[j])
+                 [] F.kind = "objmap" /\ a.k = "map" /\ Known(a) -> \A key \in DOMAIN a.mels : OneBranch(SubOf(F), a.mels[key])
+                 [] OTHER -> TRUE
+
+\* unmapped (excluded) top-level Go fields
+Unmapped(M, obj) == {n \in DOMAIN obj.f : n \notin Range(M.oneofs) /\ \A i \in DOMAIN M.fields : M.fields[i].gopath = <<>> \/ M.fields[i].gopath[1] # n}
+MaskUnmapped(M, obj) == St([n \in DOMAIN obj.f |-> IF n \in Unmapped(M, obj) THEN Nil ELSE obj.f[n]])
+
+---------------------------------------------------------------------------
+\* C05  null and unknown reset the target, whatever it held; excluded fields untouched
+
+RECURSIVE C05Sites(_, _, _, _)
+C05Elems(F, a, s) ==
+  \* known list / map of messages: null / unknown element => nil or zero struct; known => recurse
+  IF F.kind = "objlist" /\ a.k = "list" /\ Known(a) /\ s.t = "seq" /\ Len(s.e) = Len(a.elems) THEN
+     UNION { LET e == a.elems[j] x == s.e[j]
+             IN IF e.k # "obj" THEN {}
+                ELSE IF ~Known(e) THEN (IF (F.nullable /\ x.t = "nil") \/ (~F.nullable /\ NFg(x) = NFg(SubOf(F).zero)) THEN {} ELSE {V("C05.reset.element", F, "")})
+                ELSE IF x.t = "nil" THEN {} ELSE C05Sites(SubOf(F), e, Deref(x), "")
+             : j \in DOMAIN a.elems }
+  ELSE IF F.kind = "objmap" /\ a.k = "map" /\ Known(a) /\ s.t = "map" THEN
+     UNION { LET e == a.mels[key]
+             IN IF e.k # "obj" \/ key \notin DOMAIN s.m THEN {}
+                ELSE IF ~Known(e) THEN (IF (F.nullable /\ s.m[key].t = "nil") \/ (~F.nullable /\ NFg(s.m[key]) = NFg(SubOf(F).zero)) THEN {} ELSE {V("C05.reset.element", F, "")})
+                ELSE IF s.m[key].t = "nil" THEN {} ELSE C05Sites(SubOf(F), e, Deref(s.m[key]), "")
+             : key \in DOMAIN a.mels }
+  ELSE {}
+
+C05Sites(M, tv, obj, trig0) ==
+  IF ~(tv.k = "obj" /\ Known(tv)) \/ obj.t # "st" THEN {}
+  ELSE UNION {
+    LET F == M.fields[i]
+        a == AttrOf(tv, F)
+        raw == SrcVal(F, obj)
+        s == EffSrc(F, obj)
+        h == IF F.oneof # "" THEN GetPath(obj, <<F.oneof>>) ELSE Nil
+        trig == trig0
+    IN IF ~HasFlags(a) \/ F.kind = "custom" \/ F.placeholder THEN {}
+       ELSE IF ~Known(a) THEN
+          (IF F.oneof # "" THEN (IF h.t = "one" /\ h.b = F.name THEN {V("C05.reset.oneof", F, trig)} ELSE {})
+           ELSE IF F.embed # "" THEN
+                (IF raw.t = "panic" THEN {}
+                 ELSE IF F.kind = "prim" /\ ~F.nullable THEN (IF s.s \in ZeroSet(F.cls) THEN {} ELSE {V("C05.reset.embed", F, trig)})
+                 ELSE IF F.kind = "obj" /\ ~F.nullable THEN (IF NFg(s) = NFg(SubOf(F).zero) THEN {} ELSE {V("C05.reset.embed", F, trig)})
+                 ELSE (IF IsEmptyColl(s) \/ s.t = "nil" THEN {} ELSE {V("C05.reset.embed", F, trig)}))
+           ELSE IF F.kind = "prim" /\ F.nullable THEN (IF s.t = "nil" THEN {} ELSE {V("C05.reset.pointer", F, trig)})
+           ELSE IF F.kind = "prim" THEN (IF s.s \in ZeroSet(F.cls) THEN {} ELSE {V("C05.reset.scalar", F, trig)})
+           ELSE IF F.kind \in {"primlist", "objlist"} THEN (IF IsEmptyColl(s) THEN {} ELSE {V("C05.reset.list", F, trig)})
+           ELSE IF F.kind \in {"primmap", "objmap"} THEN (IF IsEmptyColl(s) THEN {} ELSE {V("C05.reset.map", F, trig)})
+           ELSE IF F.nullable THEN (IF s.t = "nil" THEN {} ELSE {V("C05.reset.object", F, trig)})
+           ELSE (IF NF(SubOf(F), s) = NF(SubOf(F), SubOf(F).zero) THEN {} ELSE {V("C05.reset.object", F, trig)}))
+       ELSE IF F.kind = "obj" THEN
+          (IF F.oneof # "" THEN (IF h.t = "one" /\ h.b = F.name /\ h.w.t = "ptr" THEN C05Sites(SubOf(F), a, h.w.p, trig) ELSE {})
+           ELSE IF s.t \in {"ptr", "st"} THEN C05Sites(SubOf(F), a, Deref(s), trig) ELSE {})
+       ELSE C05Elems(F, a, s)
+    : i \in DOMAIN M.fields }
+
+\* ctx: [M, tf (input), pre (target before), obj (target after), dg, pn]
+C05(ctx) ==
+     (IF ctx.pn THEN {[c |-> "C05.noerror", p |-> ctx.M.path, sig |-> PanicSig(ctx.M, ctx.pre)]} ELSE {})
+  \cup (IF ~ctx.pn /\ HasError(ctx.dg) THEN {VG("C05.noerror", ctx.M.path)} ELSE {})
+  \cup (IF ctx.pn THEN {} ELSE C05Sites(ctx.M, ctx.tf, ctx.obj, ""))
+  \cup (IF ctx.pn THEN {} ELSE
+         {VG("C05.excluded_untouched", ctx.M.path \o "." \o n) : n \in {x \in Unmapped(ctx.M, ctx.obj) : ctx.obj.f[x] # ctx.pre.f[x]}})
+
+\* a conforming input in the sense of C05: every level well formed (payloads under null / unknown included
+\* as far as they are present)
+C05Input(M, tv) == WellFormedObj(M, tv)
+
+\* the payload-free skeleton of a Terraform value: two inputs with equal skeletons may differ only in
+\* payloads under null / unknown
+RECURSIVE Skeleton(_)
+Skeleton(tv) ==
+  CASE tv.k = "prim" -> IF Known(tv) THEN tv ELSE [tv EXCEPT !.v = ""]
+    [] tv.k = "obj" -> IF Known(tv) THEN [tv EXCEPT !.attrs = [n \in DOMAIN tv.attrs |-> Skeleton(tv.attrs[n])]]
+                       ELSE [tv EXCEPT !.attrs = EmptyFn, !.attrsnil = FALSE]
+    [] tv.k = "list" -> IF Known(tv) THEN [tv EXCEPT !.elems = [i \in DOMAIN tv.elems |-> Skeleton(tv.elems[i])]]
+                        ELSE [tv EXCEPT !.elems = <<>>, !.elemsnil = FALSE]
+    [] tv.k = "map" -> IF Known(tv) THEN [tv EXCEPT !.mels = [key \in DOMAIN tv.mels |-> Skeleton(tv.mels[key])]]
+                       ELSE [tv EXCEPT !.mels = EmptyFn, !.elemsnil = FALSE]
+    [] OTHER -> tv
+
+---------------------------------------------------------------------------
+\* C06  malformed input becomes diagnostics, never a panic
+
+HasDiag(dg, kind, path) == \E i \in DOMAIN dg : dg[i].kind = kind /\ dg[i].path = path /\ dg[i].sev = "error"
+CountDiag(dg, kind, path) == Cardinality({i \in DOMAIN dg : dg[i].kind = kind /\ dg[i].path = path})
+
+\* fields whose attribute is missing at a level the converter reaches
+RECURSIVE MissingFrom(_, _)
+MissingFrom(M, tv) ==
+  IF ~(tv.k = "obj") THEN {}
+  ELSE UNION {
+    LET F == M.fields[i]
+        a == IF tv.attrsnil THEN [k |-> "missing"] ELSE AttrOf(tv, F)
+    IN IF F.placeholder THEN {}
+       ELSE IF a.k = "missing" THEN {F}
+       ELSE IF ~TypedAs(F, a) \/ ~Known(a) \/ F.kind = "custom" THEN {}
+       ELSE IF F.kind = "obj" THEN MissingFrom(SubOf(F), a)
+       ELSE IF F.kind = "objlist" THEN UNION {IF a.elems[j].k = "obj" /\ Known(a.elems[j]) THEN MissingFrom(SubOf(F), a.elems[j]) ELSE {} : j \in DOMAIN a.elems}
+       ELSE IF F.kind = "objmap" THEN UNION {IF a.mels[key].k = "obj" /\ Known(a.mels[key]) THEN MissingFrom(SubOf(F), a.mels[key]) ELSE {} : key \in DOMAIN a.mels}
+       ELSE {}
+    : i \in DOMAIN M.fields }
+
+\* fields with a reached attribute or element of the wrong Go type
+RECURSIVE BadFrom(_, _)
+BadFrom(M, tv) ==
+  IF ~(tv.k = "obj") \/ tv.attrsnil THEN {}
+  ELSE UNION {
+    LET F == M.fields[i]
+        a == AttrOf(tv, F)
+    IN IF F.placeholder \/ a.k = "missing" \/ F.kind = "custom" THEN {}
+       ELSE IF ~TypedAs(F, a) THEN {F}
+       ELSE IF ~Known(a) THEN {}
+       ELSE IF F.kind = "obj" THEN BadFrom(SubOf(F), a)
+       ELSE IF F.kind = "primlist" THEN (IF \E j \in DOMAIN a.elems : ~(a.elems[j].k = "prim" /\ a.elems[j].ty = F.tfty) THEN {F} ELSE {})
+       ELSE IF F.kind = "primmap" THEN (IF \E key \in DOMAIN a.mels : ~(a.mels[key].k = "prim" /\ a.mels[key].ty = F.tfty) THEN {F} ELSE {})
+       ELSE IF F.kind = "objlist" THEN
+            (IF \E j \in DOMAIN a.elems : a.elems[j].k # "obj" THEN {F} ELSE {})
+            \cup UNION {IF a.elems[j].k = "obj" /\ Known(a.elems[j]) THEN BadFrom(SubOf(F), a.elems[j]) ELSE {} : j \in DOMAIN a.elems}
+       ELSE (IF \E key \in DOMAIN a.mels : a.mels[key].k # "obj" THEN {F} ELSE {})
+            \cup UNION {IF a.mels[key].k = "obj" /\ Known(a.mels[key]) THEN BadFrom(SubOf(F), a.mels[key]) ELSE {} : key \in DOMAIN a.mels}
+    : i \in DOMAIN M.fields }
+
+\* ctx: [M, tf (input), pre, obj (result), dg, pn]
+C06From(ctx) ==
+  LET M == ctx.M
+      miss == MissingFrom(M, ctx.tf)
+      bad == BadFrom(M, ctx.tf)
+      missPaths == {F.path : F \in miss}
+      gotMissing == {ctx.dg[i].path : i \in {j \in DOMAIN ctx.dg : ctx.dg[j].kind = "readMissing"}}
+      \* top-level fields whose whole attribute is well formed are still copied
+      copied == UNION {
+        LET F == M.fields[i]
+            a == AttrOf(ctx.tf, F)
+            gp == F.gopath
+            okAttr == ctx.tf.k = "obj" /\ ~ctx.tf.attrsnil /\ a.k # "missing" /\ WellFormedField(F, a) /\ OneBranch(M, ctx.tf)
+            plain == F.oneof = "" /\ F.embed = "" /\ ~F.placeholder /\ F.kind # "custom"
+        IN IF okAttr /\ plain /\ CanSet(ctx.obj, gp) /\
+              NFg(GetPath(NF(M, ctx.obj), gp)) # NFg(GetPath(NF(M, SetPath(M.zero, gp, DecField(F, a))), gp))
+           THEN {V("C06.from.rest_copied", F, "")} ELSE {}
+        : i \in DOMAIN M.fields }
+  IN IF ctx.pn THEN {[c |-> "C06.from.nopanic", p |-> M.path, sig |-> PanicSig(M, ctx.pre)]}
+     ELSE {V("C06.from.missing_once", F, "absent") : F \in {G \in miss : ~HasDiag(ctx.dg, "readMissing", G.path)}}
+       \cup {V("C06.from.missing_once", F, "duplicate") : F \in {G \in miss : CountDiag(ctx.dg, "readMissing", G.path) > 1}}
+       \cup {VG("C06.from.missing_once", pth) : pth \in gotMissing \ missPaths}
+       \cup {V("C06.from.conversion", F, "") : F \in {G \in bad : ~HasDiag(ctx.dg, "readConversion", G.path)}}
+       \cup copied
+
+\* CopyTo with attribute types removed from the target: fields whose attribute type is missing at a level
+\* the converter reaches with the given source value
+RECURSIVE MissingTo(_, _, _)
+MissingTo(M, obj, at) ==
+  UNION {
+    LET F == M.fields[i]
+        s == EffSrc(F, obj)
+    IN IF F.attr \notin DOMAIN at THEN {F}
+       ELSE LET t == at[F.attr]
+            IN IF F.kind = "obj" /\ t.k = "obj" /\ s.t \in {"ptr", "st"} THEN MissingTo(SubOf(F), Deref(s), t.at)
+               ELSE IF F.kind = "objlist" /\ t.k = "list" /\ t.et.k = "obj" /\ s.t = "seq"
+                    THEN UNION {IF s.e[j].t = "nil" THEN {} ELSE MissingTo(SubOf(F), Deref(s.e[j]), t.et.at) : j \in DOMAIN s.e}
+               ELSE IF F.kind = "objmap" /\ t.k = "map" /\ t.et.k = "obj" /\ s.t = "map"
+                    THEN UNION {IF s.m[key].t = "nil" THEN {} ELSE MissingTo(SubOf(F), Deref(s.m[key]), t.et.at) : key \in DOMAIN s.m}
+               ELSE {}
+    : i \in DOMAIN M.fields }
+
+\* ctx: [M, obj (source), pre (target before), tf (target after), dg, pn]
+C06To(ctx) ==
+  LET M == ctx.M
+      miss == MissingTo(M, ctx.obj, ctx.pre.at)
+      missPaths == {F.path : F \in miss}
+      gotMissing == {ctx.dg[i].path : i \in {j \in DOMAIN ctx.dg : ctx.dg[j].kind = "writeMissing"}}
+      written == UNION {
+        LET F == M.fields[i]
+        IN IF F.attr \in DOMAIN ctx.pre.at /\ AttrOf(ctx.tf, F).k = "missing" THEN {V("C06.to.rest_written", F, "")} ELSE {}
+        : i \in DOMAIN M.fields }
+  IN IF ctx.pn THEN {[c |-> "C06.to.nopanic", p |-> M.path, sig |-> PanicSig(M, ctx.obj)]}
+     ELSE {V("C06.to.missing_once", F, "absent") : F \in {G \in miss : ~HasDiag(ctx.dg, "writeMissing", G.path)}}
+       \cup {V("C06.to.missing_once", F, "duplicate") : F \in {G \in miss : CountDiag(ctx.dg, "writeMissing", G.path) > 1}}
+       \cup {VG("C06.to.missing_once", pth) : pth \in gotMissing \ missPaths}
+       \cup written
+
+---------------------------------------------------------------------------
+\* C08  apply echo
+
+\* nothing unknown at any depth, attributes the converters never touch (injected) aside
+RECURSIVE UnknownIn(_, _)
+UnknownIn(M, tv) ==
+  IF tv.k # "obj" THEN {}
+  ELSE (IF tv.unk THEN {VG("C08.nounknown", M.path)} ELSE {})
+    \cup UNION {
+      LET F == M.fields[i]
+          a == AttrOf(tv, F)
+      IN IF ~HasFlags(a) \/ F.kind = "custom" THEN {}
+         ELSE IF a.unk THEN {V("C08.nounknown", F, "")}
+         ELSE IF F.kind = "obj" THEN UnknownIn(SubOf(F), a)
+         ELSE IF F.kind \in {"primlist"} THEN (IF \E j \in DOMAIN a.elems : HasFlags(a.elems[j]) /\ a.elems[j].unk THEN {V("C08.nounknown", F, "element")} ELSE {})
+         ELSE IF F.kind \in {"primmap"} THEN (IF \E key \in DOMAIN a.mels : HasFlags(a.mels[key]) /\ a.mels[key].unk THEN {V("C08.nounknown", F, "element")} ELSE {})
+         ELSE IF F.kind = "objlist" THEN UNION {UnknownIn(SubOf(F), a.elems[j]) : j \in DOMAIN a.elems}
+         ELSE UNION {UnknownIn(SubOf(F), a.mels[key]) : key \in DOMAIN a.mels}
+      : i \in DOMAIN M.fields }
+
+\* the plan is inside the quantifier of C08: at most one branch per group that is not null, no null /
+\* unknown list or map elements, at every level
+RECURSIVE C08Plan(_, _)
+C08Plan(M, tv) ==
+  /\ WellFormedObj(M, tv)
+  /\ OneBranch(M, tv)
+  /\ (Known(tv) => \A i \in DOMAIN M.fields :
+        LET F == M.fields[i]
+            a == AttrOf(tv, F)
+        IN CASE F.kind = "obj" -> C08Plan(SubOf(F), a)
+             [] F.kind = "primlist" /\ Known(a) -> \A j \in DOMAIN a.elems : Known(a.elems[j])
+             [] F.kind = "primmap" /\ Known(a) -> \A key \in DOMAIN a.mels : Known(a.mels[key])
+             [] F.kind = "objlist" /\ Known(a) -> \A j \in DOMAIN a.elems : Known(a.elems[j]) /\ C08Plan(SubOf(F), a.elems[j])
+             [] F.kind = "objmap" /\ Known(a) -> \A key \in DOMAIN a.mels : Known(a.mels[key]) /\ C08Plan(SubOf(F), a.mels[key])
+             [] OTHER -> TRUE)
+
+\* attributes outside list / map elements: known in the plan (null or not) => unchanged; known collections
+\* keep null-ness, length, key set
+RECURSIVE C08Echo(_, _, _)
+C08Echo(M, p, q) ==
+  IF ~(p.k = "obj" /\ q.k = "obj") \/ p.unk THEN {}
+  ELSE UNION {
+    LET F == M.fields[i]
+        a == AttrOf(p, F)
+        b == AttrOf(q, F)
+    IN IF ~HasFlags(a) \/ F.kind = "custom" \/ a.unk \/ p.null THEN {}
+       ELSE IF ~HasFlags(b) THEN {V("C08.known_unchanged", F, "attribute lost")}
+       ELSE IF F.kind = "prim" THEN
+            (IF a.null # b.null THEN {V("C08.known_unchanged", F, IF a.null THEN "null->value" ELSE "value->null")}
+             ELSE IF ~a.null /\ a.v # b.v THEN {V("C08.known_unchanged", F, "value")} ELSE {})
+       ELSE IF F.kind \in {"primlist", "objlist"} THEN
+            (IF a.null # b.null THEN {V("C08.coll_shape", F, IF a.null THEN "null->value" ELSE "value->null")}
+             ELSE IF ~a.null /\ Len(a.elems) # Len(b.elems) THEN {V("C08.coll_shape", F, "length")} ELSE {})
+       ELSE IF F.kind \in {"primmap", "objmap"} THEN
+            (IF a.null # b.null THEN {V("C08.coll_shape", F, IF a.null THEN "null->value" ELSE "value->null")}
+             ELSE IF ~a.null /\ DOMAIN a.mels # DOMAIN b.mels THEN {V("C08.coll_shape", F, "keys")} ELSE {})
+       ELSE \* obj
+            (IF a.null # b.null THEN {V("C08.known_unchanged", F, IF a.null THEN "null->value" ELSE "value->null")} ELSE {})
+            \cup (IF ~a.null THEN C08Echo(SubOf(F), a, b) ELSE {})
+    : i \in DOMAIN M.fields }
+
+\* ctx: [M, plan, back (plan object after CopyTo), dg1, dg2, pn]
+C08To(ctx) ==
+     (IF ctx.pn THEN {[c |-> "C08.noerror", p |-> ctx.M.path, sig |-> "panic"]} ELSE {})
+  \cup (IF ~ctx.pn /\ (HasError(ctx.dg1) \/ HasError(ctx.dg2)) THEN {VG("C08.noerror", ctx.M.path)} ELSE {})
+  \cup (IF ctx.pn THEN {} ELSE UnknownIn(ctx.M, ctx.back) \cup C08Echo(ctx.M, ctx.plan, ctx.back))
+
+\* ctx: [M, s (struct decoded from the plan), s2 (struct decoded from the echoed plan), dg, pn]
+C08Redecode(ctx) ==
+  IF ctx.pn THEN {[c |-> "C08.noerror", p |-> ctx.M.path, sig |-> "panic"]}
+  ELSE (IF HasError(ctx.dg) THEN {VG("C08.noerror", ctx.M.path)} ELSE {})
+       \cup RtDiff("C08.redecode", ctx.M, ctx.s, NF(ctx.M, MaskCustomGo(ctx.M, 1, ctx.s)), NF(ctx.M, MaskCustomGo(ctx.M, 1, ctx.s2)))
+
+---------------------------------------------------------------------------
+\* C09  refresh: the object follows the new source; idempotent
+
+\* does Terraform value a render Go value s (of field F / its elements)?  null is allowed for zero / nil.
+RECURSIVE Follows(_, _, _)
+PrimFollows(F, a, s) ==
+  /\ a.k = "prim"
+  /\ IF F.nullable THEN (a.null <=> s.t = "nil") /\ (s.t = "ptr" => a.v = s.p.s)
+     ELSE (a.null => s.s \in ZeroSet(F.cls)) /\ (~a.null => a.v = s.s \/ (a.v \in ZeroSet(F.cls) /\ s.s \in ZeroSet(F.cls)))
+ElemFollows(F, e, x) ==
+  IF F.kind \in {"primlist", "primmap"} THEN PrimFollows(F, e, x)
+  ELSE e.k = "obj" /\ (IF x.t = "nil" THEN e.null ELSE ~e.null /\ Follows(SubOf(F), e, Deref(x)) = {})
+
+\* failing sites; tv = object after the call, obj = source struct
+Follows(M, tv, obj) ==
+  IF ~(tv.k = "obj") \/ obj.t # "st" THEN {}
+  ELSE UNION {
+    LET F == M.fields[i]
+        a == AttrOf(tv, F)
+        s == EffSrc(F, obj)
+    IN IF ~HasFlags(a) \/ F.kind = "custom" \/ F.placeholder THEN {}
+       ELSE IF F.kind = "prim" /\ F.nullable THEN (IF a.null <=> s.t = "nil" THEN {} ELSE {V("C09.ptr.null_iff_nil", F, "")})
+                                                 \cup (IF s.t = "ptr" /\ ~a.null /\ a.v # s.p.s THEN {V("C09.scalar.follow", F, "")} ELSE {})
+       ELSE IF F.kind = "prim" THEN {}   \* judged against the earlier state by ScalarFollow
+       ELSE IF F.kind \in {"primlist", "objlist"} THEN
+            LET n == IF s.t = "seq" THEN Len(s.e) ELSE 0
+            IN IF Len(a.elems) # n THEN {V("C09.list.len", F, IF s.t = "nil" THEN "src=nil" ELSE "")}
+               ELSE IF \E j \in 1..n : ~ElemFollows(F, a.elems[j], s.e[j]) THEN {V("C09.list.elems", F, "")} ELSE {}
+       ELSE IF F.kind \in {"primmap", "objmap"} THEN
+            LET keys == IF s.t = "map" THEN DOMAIN s.m ELSE {}
+            IN IF DOMAIN a.mels # keys THEN {V("C09.map.keys", F, IF s.t = "nil" THEN "src=nil" ELSE "")}
+               ELSE IF \E key \in keys : ~ElemFollows(F, a.mels[key], s.m[key]) THEN {V("C09.map.vals", F, "")} ELSE {}
+       ELSE \* obj
+            IF s.t = "nil" THEN (IF a.null THEN {} ELSE {V("C09.msg.nil_null", F, "")})
+            ELSE Follows(SubOf(F), a, Deref(s))
+    : i \in DOMAIN M.fields }
+
+\* every scalar attribute that was non-null before the call takes the source's value
+RECURSIVE ScalarFollow(_, _, _, _)
+ScalarFollow(M, before, after, obj) ==
+  IF ~(before.k = "obj" /\ after.k = "obj") \/ obj.t # "st" THEN {}
+  ELSE UNION {
+    LET F == M.fields[i]
+        a0 == AttrOf(before, F)
+        a == AttrOf(after, F)
+        s == EffSrc(F, obj)
+    IN IF ~HasFlags(a0) \/ ~HasFlags(a) \/ F.kind = "custom" \/ F.placeholder THEN {}
+       ELSE IF F.kind = "prim" /\ ~F.nullable THEN
+            (IF ~a0.null /\ ~(a.v = s.s \/ (a.v \in ZeroSet(F.cls) /\ s.s \in ZeroSet(F.cls))) THEN {V("C09.scalar.follow", F, "")} ELSE {})
+       ELSE IF F.kind = "obj" /\ s.t \in {"ptr", "st"} /\ ~before.null THEN ScalarFollow(SubOf(F), a0, a, Deref(s))
+       ELSE {}
+    : i \in DOMAIN M.fields }
+
+\* ctx: [M, obj (new source), before, after, dg, pn]
+C09(ctx) ==
+     (IF ctx.pn THEN {[c |-> "C09.noerror", p |-> ctx.M.path, sig |-> PanicSig(ctx.M, ctx.obj)]} ELSE {})
+  \cup (IF ~ctx.pn /\ HasError(ctx.dg) THEN {VG("C09.noerror", ctx.M.path)} ELSE {})
+  \cup (IF ctx.pn THEN {} ELSE
+          (IF NoUnknown(ctx.after) THEN {} ELSE {VG("C09.nounknown", ctx.M.path)})
+          \cup Follows(ctx.M, ctx.after, ctx.obj)
+          \cup ScalarFollow(ctx.M, ctx.before, ctx.after, ctx.obj))
+
+C09Idem(ctx) == IF ctx.pn \/ ctx.after = ctx.before THEN {} ELSE {VG("C09.idempotent", ctx.M.path)}
 =============================================================================
